@@ -202,6 +202,12 @@ func c14Core(c CaseC14, x *hx.Ctx, reuse func(i int) *packet.Packet) *hx.Failure
 		return c14Remove(c, payload)
 	}
 	// error contract
+	if len(missing) == 0 && len(sel) == 0 && len(out) == 0 && ferr != nil {
+		// a request that names only the PAT and PMT PIDs: once those are ignored nothing is requested, "every requested PID is
+		// in the PMT" and "none are" both hold vacuously and prescribe opposite outcomes - either one is accepted
+		x.Label("request-of-ignored-pids-only")
+		return c14Remove(c, payload)
+	}
 	switch {
 	case len(missing) == 0:
 		if ferr != nil {
